@@ -278,6 +278,23 @@ theorem file_spec (cfg : NamedCfg) (text : List Char) (nrows2 ncols2 : Nat) (ini
     rw [finish_ok hload, load_spec cfg _ _ st1 hl hnd (Tbl.shaped_init _ _ _) rfl hZ hi]
     simp only [Tbl.get_init (Nat.lt_succ_of_le hZ) hi]
 
+/-- the same for the second table of a file that searches two name tables (auger_rates.dat) -/
+theorem file_spec_second (cfg : NamedCfg) (text : List Char) (nrows1 ncols1 : Nat) (init : Dec) (st : St)
+    (hload : loadFile3 cfg text { t1 := Tbl.init nrows1 ncols1 init, t2 := Tbl.init (cfg.zmax + 1) cfg.names2.length init, err := false } = .ok st)
+    (hnd : cfg.names2.Nodup) {Z : Nat} (hZ : Z ≤ cfg.zmax) {i : Nat} (hi : i < cfg.names2.length) :
+    st.t2.get Z i =
+      match lastRecord (records3 text).1 (Z : Int) cfg.names2[i] with
+      | some v => v.scale10 cfg.scale
+      | none => init := by
+  unfold loadFile3 loadRecs at hload
+  simp only at hload
+  cases hl : loadNamed cfg (records3 text).1 { t1 := Tbl.init nrows1 ncols1 init, t2 := Tbl.init (cfg.zmax + 1) cfg.names2.length init, err := false } with
+  | error f => simp [hl] at hload
+  | ok st1 =>
+    simp only [hl] at hload
+    rw [finish_ok hload, load_spec₂ cfg _ _ st1 hl hnd (Tbl.shaped_init _ _ _) rfl hZ hi]
+    simp only [Tbl.get_init (Nat.lt_succ_of_le hZ) hi]
+
 /-- the same for the per-element scalars (`%d %lf`: atomicweight.dat, densities.dat): the one column is named "" -/
 theorem file_spec₂ (cfg : NamedCfg) (hn : cfg.names = [""]) (text : List Char) (init : Dec) (st : St)
     (hload : loadFile2 cfg text { t1 := Tbl.init (cfg.zmax + 1) 1 init, t2 := Tbl.init (cfg.zmax + 1) 0 init, err := false } = .ok st)
@@ -485,6 +502,15 @@ theorem auger_total_spec (text : List Char) (st : St)
       | some v => v.scale10 0
       | none => Dec.ofInt 0 :=
   file_spec (cfgAuger names) text _ _ _ st h names_distinct.2.2.2.2.1 hZ hi
+
+/-- auger_rates.dat → `Auger_Transition_Individual` (names "K-L1L1" …, the second search of every record) -/
+theorem auger_individual_spec (text : List Char) (st : St)
+    (h : loadFile3 (cfgAuger names) text (st0 names names.augerTotal.length 0 names.auger.length) = .ok st)
+    {Z : Nat} (hZ : Z ≤ ZMAX) {i : Nat} (hi : i < names.auger.length) :
+    st.t2.get Z i = match lastRecord (records3 text).1 (Z : Int) names.auger[i] with
+      | some v => v.scale10 0
+      | none => Dec.ofInt 0 :=
+  file_spec_second (cfgAuger names) text _ _ _ st h names_distinct.2.2.2.1 hZ hi
 
 /-- atomicweight.dat → `AtomicWeight_arr`, densities.dat → `ElementDensity_arr`: no unit conversion, initial value OUTD -/
 theorem atomicweight_spec (text : List Char) (st : St)
